@@ -4,7 +4,11 @@ arguments, Fortran-ordered copies, arguments passed verbatim - no index adjustme
 that the real FortranEngine wrapper is the code under test.
 
 Flavours:  'check' = -O0 -g -fcheck=all (every subscript checked: exact)
-           'asan'  = -O1 -g -fsanitize=address,undefined (needs libasan preloaded)"""
+           'asan'  = -O0 -g -fsanitize=address,undefined (needs libasan preloaded)
+
+Both flavours compile without optimisation on purpose: the property is about the *generated source*, and the gfortran in this
+image (12.2.0) miscompiles `exp(-(-abs(x)))` to 1.0 at -O1 and above (reproduced with a 10-line program independent of fsic;
+DESIGN.md section 9), which an optimised build would turn into a false alarm about fsic."""
 import ctypes
 import os
 import pickle
@@ -16,7 +20,7 @@ import numpy as np
 
 FLAGS = {
     'check': ['-O0', '-g', '-fcheck=all', '-ffpe-summary=none'],
-    'asan': ['-O1', '-g', '-fsanitize=address,undefined', '-fno-sanitize-recover=all', '-ffpe-summary=none'],
+    'asan': ['-O0', '-g', '-fsanitize=address,undefined', '-fno-sanitize-recover=all', '-ffpe-summary=none'],
     'plain': ['-O2'],
 }
 c_int, c_dbl = ctypes.c_int, ctypes.c_double
